@@ -171,7 +171,7 @@ def subspace_intersect(ctx, n, k1, k2):
          note="intersect elementwise/pairwise on composites, eigenvector / diagonalize (numpy.linalg.eig), hyperplane_coordinate_transform (numpy.linalg.qr)")
 def sampling(tier, rng, rep):
     N = 300 if tier == 'thorough' else 60
-    rep.rule = "random real/complex instances, dimension 1..5; non-trivial = generic (full-rank, distinct eigenvalues) instance"
+    rep.rule = "random real/complex instances, dimension 1..5; hyperplane normals also structured (coordinate hyperplanes, zero 0-th coordinate, integer); non-trivial = generic (full-rank, distinct eigenvalues) instance"
     rep.bound = f"{N} rounds of 4 sub-checks"
     for t in range(N):
         n = int(rng.integers(2, 6))
@@ -207,7 +207,7 @@ def sampling(tier, rng, rep):
         inp = {"n": n, "M_re": M.real.tolist(), "M_im": np.imag(M).tolist(), "eigenvalue": [lam.real, lam.imag]}
         v = T.eigenvector(lam).proj_data
         img = (T @ pr.Point(v.copy())).proj_data
-        if np.max(np.abs(img - lam * v)) > 1e-7 * (1 + np.max(np.abs(M))) * max(1.0, np.max(np.abs(v))) or np.max(np.abs(v)) == 0:
+        if not np.all(np.abs(img - lam * v) <= 1e-7 * (1 + np.max(np.abs(M))) * max(1.0, np.max(np.abs(v)))) or np.max(np.abs(v)) == 0:
             rep.fail("eigenvector", "T @ v != lambda v", inp)
         D = T.diagonalize()
         Dm = (D.inv() @ T @ D).proj_data if False else None
@@ -216,20 +216,28 @@ def sampling(tier, rng, rep):
         cm = C.proj_data
         prod = cm @ M @ np.linalg.inv(cm)
         off = prod - np.diag(np.diag(prod))
-        if np.max(np.abs(off)) > 1e-6 * (1 + np.max(np.abs(prod))):
+        if not np.all(np.abs(off) <= 1e-6 * (1 + np.max(np.abs(prod)))):
             rep.fail("diagonalize", "conjugate by the diagonalising frame is not diagonal", inp)
-        if np.max(np.abs(cm @ Cinv.proj_data - np.eye(n + 1))) > 1e-7:
+        if not np.all(np.abs(cm @ Cinv.proj_data - np.eye(n + 1)) <= 1e-7):
             rep.fail("diagonalize_inverse", "returned inverse is not the inverse", inp)
         rep.case(key=("eig", t))
         # --- hyperplane_coordinate_transform
         nv = rng.normal(size=n + 1)
+        if t % 3 == 1:       # structured normals: coordinate hyperplanes, hyperplanes through [1:0:...:0], integer normals
+            nv = rng.integers(-2, 3, size=n + 1).astype(float)
+            if t % 2:
+                nv[0] = 0.0
+            if t % 9 == 1:
+                nv = np.eye(n + 1)[int(rng.integers(0, n + 1))] * rng.choice([-1.0, 1.0, 2.0])
+            if not np.any(nv):
+                nv[-1] = 1.0
         Th = pr.hyperplane_coordinate_transform(nv.copy())
         mat = Th.proj_data
-        if np.max(np.abs(mat @ mat.T - np.eye(n + 1))) > 1e-9:
+        if not np.all(np.abs(mat @ mat.T - np.eye(n + 1)) <= 1e-9):
             rep.fail("hyperplane_transform_orthogonal", "not orthogonal", {"normal": nv.tolist()})
         # points of {x.n = 0} go to {x_0 = 0}
         basis = np.linalg.svd(nv[None, :])[2][1:]
         img = (Th @ pr.Point(basis.copy())).proj_data
-        if np.max(np.abs(img[..., 0])) > 1e-9:
+        if not np.all(np.abs(img[..., 0]) <= 1e-9):
             rep.fail("hyperplane_sent_to_infinity", f"first coordinate {np.max(np.abs(img[..., 0]))}", {"normal": nv.tolist()})
         rep.case(key=("hyp", t))
